@@ -93,7 +93,7 @@ func clauseOrderShape(order []string) string {
 
 var specC04Small = Register(&Spec[DepCase]{
 	Prop: "C04", Name: "small",
-	Rule: "bounded-exhaustive: every single alternative over {substvar} + package x {no qualifier, ':any'} x {no version, '(>= 1.0-1)'} x {no list, [a b], [!a !b]} x {0,1,2 profile groups} in EVERY clause order, alone and combined as second alternative / second relation with 8 representative partners, each rendered under 10 fixed spacing schemes (canonical, minimal, double, folded, folded+newline, tabs, newlines, newline+indent, CRLF, inner-minimal). Oracle: Parse and UnmarshalControl return exactly the AST. Non-trivial: >=2 alternatives, >=2 clause kinds, non-space whitespace, or substvar next to a restricted alternative; distinct by text.",
+	Rule:  "bounded-exhaustive: every single alternative over {substvar} + package x {no qualifier, ':any'} x {no version, '(>= 1.0-1)'} x {no list, [a b], [!a !b]} x {0,1,2 profile groups} in EVERY clause order, alone and combined as second alternative / second relation with 8 representative partners, each rendered under 10 fixed spacing schemes (canonical, minimal, double, folded, folded+newline, tabs, newlines, newline+indent, CRLF, inner-minimal). Oracle: Parse and UnmarshalControl return exactly the AST. Non-trivial: >=2 alternatives, >=2 clause kinds, non-space whitespace, or substvar next to a restricted alternative; distinct by text.",
 	Check: checkDepCase,
 })
 
@@ -222,7 +222,7 @@ func genDepCase(t *rapid.T) DepCase {
 
 var specC04Random = Register(&Spec[DepCase]{
 	Prop: "C04", Name: "random",
-	Rule: "random dependency ASTs (1..6 relations x 1..4 alternatives; substvars; package names incl. + . -; ':arch' qualifiers of 1/2/3 parts; one '(op version)' with the five operators and Policy-grammar versions; one [arch...] list of 1..4 names all negated or none; 0..3 <profile> groups of 1..3 terms with optional '!'; clauses in a generated order) rendered by an independent renderer with per-gap whitespace drawn from class W0 (spaces only), W1 (+ newline-space folding at ',' and '|') or W2 (spaces, tabs, newlines, CRLF anywhere whitespace is legal, trailing newline). Oracle and non-trivial rule as C04/small.",
+	Rule:  "random dependency ASTs (1..6 relations x 1..4 alternatives; substvars; package names incl. + . -; ':arch' qualifiers of 1/2/3 parts; one '(op version)' with the five operators and Policy-grammar versions; one [arch...] list of 1..4 names all negated or none; 0..3 <profile> groups of 1..3 terms with optional '!'; clauses in a generated order) rendered by an independent renderer with per-gap whitespace drawn from class W0 (spaces only), W1 (+ newline-space folding at ',' and '|') or W2 (spaces, tabs, newlines, CRLF anywhere whitespace is legal, trailing newline). Oracle and non-trivial rule as C04/small.",
 	Check: checkDepCase,
 })
 
@@ -249,7 +249,7 @@ func genBadDep(t *rapid.T) BadDep {
 	a1, a2 := genArchName(t, "a1"), genArchName(t, "a2")
 	p1, p2 := rapid.SampledFrom(profileNames).Draw(t, "p1"), rapid.SampledFrom(profileNames).Draw(t, "p2")
 	class := rapid.SampledFrom([]string{"unterminated-bracket", "unterminated-paren", "unterminated-profile", "unterminated-substvar",
-		"mixed-negation", "second-version", "second-arch-list", "unknown-operator-U1", "unknown-operator-U2", "two-names", "substvar-junk", "nul-byte", "dollar-without-brace", "unknown-operator-U3", "opener-inside-clause", "nameless-restriction"}).Draw(t, "class")
+		"mixed-negation", "second-version", "second-arch-list", "unknown-operator-U1", "unknown-operator-U2", "two-names", "substvar-junk", "nul-byte", "dollar-without-brace", "unknown-operator-U3", "opener-inside-clause", "nameless-restriction", "unknown-operator-U0"}).Draw(t, "class")
 	var tail string
 	// a valid ", rel" or " | alt" may follow every corruption: no construct of
 	// the grammar contains ',' or '|', so a closer further right belongs to a
@@ -311,6 +311,15 @@ func genBadDep(t *rapid.T) BadDep {
 		bad := rapid.SampledFrom([]string{"==", "=>", "=<"}).Draw(t, "bad")
 		tail = name + " (" + bad + " " + ver + ")"
 		suffixOK = true
+	case "unknown-operator-U0":
+		// half an operator: the single '<' and '>' of before Policy 3.5 (what deleting one byte of
+		// '<<' '<=' '>=' '>>' leaves, or replacing it by a blank or a digit) are not among the five
+		bad := rapid.SampledFrom([]string{"<", ">", "<", ">", "!", "~", "-", "+"}).Draw(t, "bad0")
+		tail = name + rapid.SampledFrom([]string{" (", "("}).Draw(t, "b0p") + bad + rapid.SampledFrom([]string{" ", "", "\t", "  ", " \n "}).Draw(t, "b0s") + ver + rapid.SampledFrom([]string{")", " )"}).Draw(t, "b0c")
+		if rapid.IntRange(0, 7).Draw(t, "b0bare") == 0 {
+			tail = name + " (" + bad + ")"
+		}
+		suffixOK = true
 	case "unknown-operator-U3":
 		// a known operator with one more operator character glued on, written without a blank
 		bad := rapid.SampledFrom([]string{">==", ">=>", ">=<", "<==", "<=>", ">>>", ">>=", "<<<", "<<=", "<=<"}).Draw(t, "bad3")
@@ -363,7 +372,7 @@ func genBadDep(t *rapid.T) BadDep {
 
 var specC04Malformed = Register(&Spec[BadDep]{
 	Prop: "C04", Name: "malformed",
-	Rule: "one corruption of a valid canonical field, each its own class: closing ] ) > or } missing from a construct (at the end of input, or followed by further valid relations or alternatives whose own closers must not be borrowed); a NUL byte anywhere with more text behind it; a known operator with a third operator character glued on ('>==1'); an opener ( [ < inside an open clause of the same alternative; clauses without a package name; a '$' that is not followed by '{'; a ${substvar} followed by anything but ',' '|' or the end (a name, a second substvar, a clause); mixed negation in an arch list; a second (version) clause; a second [arch] list; an unknown operator not starting with '=' (U1: ~= != >< <> ~ ^ ...) or starting with '=' (U2: == => =<); two names separated only by blanks - optionally preceded (and where sound followed) by valid relations. Oracle: Parse returns (nil, error) and UnmarshalControl returns an error and leaves no relations in its receiver; a fixed valid field parsed right afterwards through either entry point comes out as written. Every case is non-trivial; distinct by text.",
+	Rule: "one corruption of a valid canonical field, each its own class: closing ] ) > or } missing from a construct (at the end of input, or followed by further valid relations or alternatives whose own closers must not be borrowed); a NUL byte anywhere with more text behind it; a known operator with a third operator character glued on ('>==1'); an opener ( [ < inside an open clause of the same alternative; clauses without a package name; a '$' that is not followed by '{'; a ${substvar} followed by anything but ',' '|' or the end (a name, a second substvar, a clause); mixed negation in an arch list; a second (version) clause; a second [arch] list; half an operator (U0: a lone '<' '>' '!' '~' '-' '+' in front of the version); an unknown operator not starting with '=' (U1: ~= != >< <> ~ ^ ...) or starting with '=' (U2: == => =<); two names separated only by blanks - optionally preceded (and where sound followed) by valid relations. Oracle: Parse returns (nil, error) and UnmarshalControl returns an error and leaves no relations in its receiver; a fixed valid field parsed right afterwards through either entry point comes out as written. Every case is non-trivial; distinct by text.",
 	Check: func(c BadDep, r *Recorder) error {
 		r.Case(c.Text, true, "malformed:"+c.Class)
 		r.Sample(c)
@@ -457,7 +466,7 @@ func dpkgClauseOrder(a AltAST) []string {
 
 var specC04Guard = Register(&Spec[DepCase]{
 	Prop: "C04", Name: "dpkgguard",
-	Rule: "C04/random fields without substvars and with the clauses in dpkg's order (version, architectures, profiles), first shown to Dpkg::Deps::deps_parse (dpkg's reference parser, build_dep mode): fields dpkg rejects are dropped and counted as guard_rejected; fields dpkg accepts must parse to exactly the AST (same oracle as C04/random). The dpkg verdict is only a filter, so replay needs no dpkg.",
+	Rule:  "C04/random fields without substvars and with the clauses in dpkg's order (version, architectures, profiles), first shown to Dpkg::Deps::deps_parse (dpkg's reference parser, build_dep mode): fields dpkg rejects are dropped and counted as guard_rejected; fields dpkg accepts must parse to exactly the AST (same oracle as C04/random). The dpkg verdict is only a filter, so replay needs no dpkg.",
 	Check: checkDepCase,
 })
 
